@@ -84,7 +84,7 @@ from cylc.flow.exceptions import (
     CylcConfigError,
 )
 import cylc.flow.flags
-from cylc.flow.flow_mgr import FLOW_NONE, repr_flow_nums
+from cylc.flow.flow_mgr import FLOW_NEW, FLOW_NONE, repr_flow_nums
 from cylc.flow.id import TaskTokens
 from cylc.flow.log_level import log_level_to_verbosity
 from cylc.flow.parsec.exceptions import ParsecError
@@ -710,6 +710,13 @@ async def force_trigger_tasks(
         adjacency.setdefault((id_), set()).update(prereqs)
         for prereq in prereqs:
             adjacency.setdefault(prereq, set()).add(id_)
+
+    if flow == [FLOW_NEW] and adjacency:
+        # Start ONE new flow for the whole command. (Left to each group the
+        # selected tasks would end up in a different new flow per connected
+        # group, so a task downstream of two groups would run twice).
+        flow = [str(schd.pool.flow_mgr.get_flow(meta=flow_descr))]
+        flow_descr = None  # (recorded with the new flow)
 
     # trigger each group of tasks individually
     for group in get_connected_groups(adjacency):
